@@ -159,7 +159,12 @@ func init() {
 		c := &sessCase{Preempt: true}
 		v5mask := r.Intn(4)
 		genPopulation(r, c, v5mask, i%3 == 2, i%5 == 4)
-		c.Ops = append(c.Ops, sessOp{Op: "stop"}, sessOp{Op: "restart"})
+		c.Ops = append(c.Ops, sessOp{Op: "stop"})
+		if i%5 == 4 && r.Chance(50) {
+			// the broker is down while expiry intervals / will delays elapse
+			c.Ops = append(c.Ops, sessOp{Op: "wait", Ms: []int{600, 1500, 2500}[r.Intn(3)]})
+		}
+		c.Ops = append(c.Ops, sessOp{Op: "restart"})
 		// after the restart: publishes reach restored subscriptions, reconnects find their state
 		cycles := 1
 		for k := 0; k < 2+r.Intn(4); k++ {
